@@ -160,4 +160,25 @@ example : C12Frame.TextFields [.text, .text, .text] [.ptr (.str false), .ptr (.s
     [.nilptr, .ptr (.str false []), .ptr (.str false [65])] :=
   .null (.ptr [] (by decide) (.ptr [65] (by decide) .nil))
 
+/-- FULL STATEMENT (does not hold): "a struct that Marshal accepts for a tuple column is given back by Unmarshal into
+    the same struct type".  unmarshalTuple decodes every field into goType(elem) and then `Set`s the struct field:
+    when the field's type is another documented type of the element (int32 for an int column, *big.Int for varint,
+    *inf.Dec for decimal) reflect.Value.Set panics.  `C02_tuple_text_roundtrip` is the part that holds (fields of type
+    goType(elem) or a pointer to it).  = replay input `rt 4 tuple 1 int st 1 i int32 5 struct 1 k int32` -/
+theorem C02_cex_tuple_field_type :
+    marshal 4 (.tuple [.int]) (.struct [.int .int32 false 5]) = .ok (some [0, 0, 0, 4, 0, 0, 0, 5]) ∧
+    unmarshal 4 (.tuple [.int]) (.struct [.int .int32 false]) (some [0, 0, 0, 4, 0, 0, 0, 5]) = .crash := by
+  have hk : marshalIntKind .int .int32 false 5 = some [0, 0, 0, 5] := by decide
+  have h4 : encInt (toS 32 4) = [0, 0, 0, 4] := by decide
+  have hd : decInt [0, 0, 0, 4] = 4 := by decide
+  have hd5 : decInt [0, 0, 0, 5] = 5 := by decide
+  have hu : unmarshalIntKind .int 5 .int = some 5 := by decide
+  have hb : (GoTy.int .int32 false == GoTy.int .int false) = false := by decide
+  constructor
+  · simp [marshal, wrapTuple, marshalTupleFields, GoVal.isNilPtr, marshalScalar, marshalIntColumn, optM, hk, appendBytes, h4]
+  · have hus : unmarshalScalar .int false [0, 0, 0, 5] (.int .int false) = .ok (.int .int false 5) := by
+      show unmarshalIntlike .int (decInt [0, 0, 0, 5]) [0, 0, 0, 5] (.int .int false) = _
+      simp [unmarshalIntlike, hd5, hu, optU]
+    simp [unmarshal, withPtr, stripPtr, unmarshalBase, dataBytes, unmarshalTupleSet, shorter, readBytesM, hd, goTypeOf,
+      hus, hb]
 end C02
